@@ -11,6 +11,6 @@ def SELECT(name):
 
 TRUSTED = cm.TRUSTED_CORE
 ASSUMPTIONS = cm.ASSUME_CORE + ['known finding F15 applies to expand_math_section']
-LEVEL_TEXT = 'Proves for expand_display_math: the row/section loop keeps ParserInv and BufInv, every token appended (blank after &, line break after \\\\\\\\, placeholders, operator words, punctuation) is a fresh fixed token inside the source at the position of a token of the equation, the simple-equations branch and the env.remove branch build their output from positions of the equation only; index safety of out[-1] and repls[0]. NOT proved: one output line per row, advance of placeholders at the documented points.'
+LEVEL_TEXT = 'Proves for expand_display_math: the punctuation mark kept in simple-equations mode and for removed environments is taken from the text of the rendered output list (call-site precondition of get_text_direct), the row/section loop keeps ParserInv and BufInv, every token appended (blank after &, line break after \\\\\\\\, placeholders, operator words, punctuation) is a fresh fixed token inside the source at the position of a token of the equation, the simple-equations branch and the env.remove branch build their output from positions of the equation only; index safety of out[-1] and repls[0]. NOT proved: one output line per row, advance of placeholders at the documented points.'
 LEVEL_NOTE = 'Same limits as C10.'
 TECHNIQUE = 'contract-based deductive verification: per-function postconditions and loop invariants over the real AST, z3; end-to-end sentence of the property not decided'
